@@ -17,7 +17,7 @@ var c20Bases = []int{120, 499, 500, 501, 900}
 
 // variants of the host page: a data table (which the converter leaves through a different path)
 // before the article, so that state kept across elements would show
-var c20Variants = []string{"", "table-first"}
+var c20Variants = []string{"", "table-first", "decoys"}
 
 type c20Marker struct{ name, attr, val string }
 
@@ -82,7 +82,7 @@ func c20Doc(base int, subs []c20Sub, variant string) string {
 		}
 		switch c20Contents[s.content] {
 		case "links":
-			inner = item("<a href=\"http://example.com/l/"+t.U()+"\">"+t.W(2)+"</a> <a href=\"http://example.com/l/"+t.U()+"\">"+t.W(2)+"</a> <a href=\"http://example.com/l/"+t.U()+"\">"+t.W(1)+"</a>")
+			inner = item("<a href=\"http://example.com/l/" + t.U() + "\">" + t.W(2) + "</a> <a href=\"http://example.com/l/" + t.U() + "\">" + t.W(2) + "</a> <a href=\"http://example.com/l/" + t.U() + "\">" + t.W(1) + "</a>")
 		case "pc1":
 			if tag == "p" {
 				inner = t.W(26)
@@ -118,6 +118,17 @@ func c20Doc(base int, subs []c20Sub, variant string) string {
 	}
 	var sb strings.Builder
 	sb.WriteString("<html><head><title>" + ora.DefaultTitle + "</title></head><body>")
+	if variant == "decoys" {
+		// elements that carry the same marker values but are exempt from pruning (anchors), before
+		// and after everything else; the oracle leaves them alone (c20Marked ignores anchors)
+		sb.WriteString("<p>" + t.W(20))
+		for _, m := range c20Markers {
+			if m.attr != "role" {
+				sb.WriteString(" <a " + m.attr + "=\"" + m.val + "\" href=\"http://example.com/l/" + t.U() + "\">" + t.W(1) + "</a>")
+			}
+		}
+		sb.WriteString(" " + t.W(5) + "</p>")
+	}
 	if variant == "table-first" {
 		sb.WriteString("<p>" + t.W(24) + "</p><table><tr><th>" + t.W(1) + "</th><th>" + t.W(1) + "</th></tr><tr><td>" + t.W(1) + "</td><td>" + t.W(1) + "</td></tr><tr><td>" + t.W(1) + "</td><td>" + t.W(1) + "</td></tr></table>")
 	}
@@ -134,6 +145,15 @@ func c20Doc(base int, subs []c20Sub, variant string) string {
 	sb.WriteString(between)
 	sb.WriteString("<div><p>" + t.W(30) + "</p></div>")
 	sb.WriteString(after)
+	if variant == "decoys" {
+		sb.WriteString("<div><p>" + t.W(22))
+		for _, m := range c20Markers {
+			if m.attr != "role" {
+				sb.WriteString(" <a " + m.attr + "=\"" + m.val + "\" href=\"http://example.com/l/" + t.U() + "\">" + t.W(2) + "</a>")
+			}
+		}
+		sb.WriteString(" " + t.W(6) + "</p></div>")
+	}
 	sb.WriteString("</body></html>")
 	return sb.String()
 }
@@ -177,6 +197,7 @@ func c20Enumerate(tier string, emit func(*eng.Case)) {
 		for i, s := range all {
 			emit(&eng.Case{Kind: "prune", P: map[string]string{"base": fmt.Sprint(b), "subs": enc([]c20Sub{s}), "doc": fmt.Sprintf("base=%d %s", b, desc([]c20Sub{s}))}})
 			emit(&eng.Case{Kind: "prune", P: map[string]string{"base": fmt.Sprint(b), "variant": "table-first", "subs": enc([]c20Sub{s}), "doc": fmt.Sprintf("base=%d table-first %s", b, desc([]c20Sub{s}))}})
+			emit(&eng.Case{Kind: "prune", P: map[string]string{"base": fmt.Sprint(b), "variant": "decoys", "subs": enc([]c20Sub{s}), "doc": fmt.Sprintf("base=%d decoys %s", b, desc([]c20Sub{s}))}})
 			for _, s2 := range second {
 				if tier != "thorough" && b != 499 && b != 500 && b != 900 {
 					continue
@@ -192,8 +213,8 @@ func c20Enumerate(tier string, emit func(*eng.Case)) {
 }
 
 func c20Marked(n *html.Node) bool {
-	if n.Type != html.ElementNode {
-		return false
+	if n.Type != html.ElementNode || n.Data == "a" {
+		return false // anchors are exempt from pruning (outside the statement): never treated as marked
 	}
 	for _, m := range c20Markers {
 		if v, ok := ora.Attr(n, m.attr); ok && v == m.val {
@@ -326,7 +347,7 @@ func init() {
 	eng.Register(&eng.Prop{
 		ID:        "C20",
 		DesignRef: "§5 C20",
-		Rule: "base pages of 120/499/500/501/900 words in total (article + 30-word trailer paragraph) x marked subtrees: marker {class=sidebar, id=footer, class=menu, class='banner x', role=navigation, role=dialog, class=Social-links, id=related} on {div, section, ul, p} x content {link cluster, one paragraph, three paragraphs, image} x placement {before, between, after the article, inside it, wrapping it}; all singles on all bases, each also on a page that starts with a paragraph and a data table; pairs with a second subtree from a reduced set on bases 499/500/900 (quick) / every third first subtree with every second subtree, all on base 500 (thorough). " +
+		Rule: "base pages of 120/499/500/501/900 words in total (article + 30-word trailer paragraph) x marked subtrees: marker {class=sidebar, id=footer, class=menu, class='banner x', role=navigation, role=dialog, class=Social-links, id=related} on {div, section, ul, p} x content {link cluster, one paragraph, three paragraphs, image} x placement {before, between, after the article, inside it, wrapping it}; all singles on all bases, each also on a page that starts with a paragraph and a data table, and on a page with exempt anchors carrying the same marker values before and after the content; pairs with a second subtree from a reduced set on bases 499/500/900 (quick) / every third first subtree with every second subtree, all on base 500 (thorough). " +
 			"Oracle (metamorphic, 3 executions per case): w = WordCount of the page with marked subtrees deleted; w >= 500 => result == result of the deleted page, else == result of the page with markers renamed to a neutral value (Title, Text, HTML, WordCount, ContentImages). Non-trivial = a marked subtree holds >= 20 words.",
 		Enumerate: c20Enumerate,
 		Check:     c20Check,
